@@ -103,39 +103,51 @@ class Tools:
                                  "-Cargs=-Wconfig=%s/aldor/src/aldor.conf -I%s" % (C.RB, C.eff_src()),
                                  "-fao", "-fc", "-fx=p.exe", "p.as"]
 
-    def route_cmd(self, route, lib, d):
+    def route_cmd(self, route, p):
+        """-> (command, working directory).  p['chk'] = ['-Wcheck'] (store washing + assertions on) unless the
+        program's unforced run already trips an interpreter assertion under -Wcheck."""
+        lib, d = p.get("lib", "aldor"), p["dir"]
         _, l = lib_flags(lib)
+        chk = p.get("chk", ["-Wcheck"])
         if route == "exe":
-            return [os.path.join(d, "p.exe")]
-        if route == "interp-ao":
-            return self.base(lib) + [l, "-Wcheck", "-ginterp", "p.ao"]
+            return [os.path.join(d, "p.exe")], d
+        if route == "interp-ao":             # own directory: `-ginterp p.as' deletes a p.ao beside it
+            return self.base(lib) + [l] + chk + ["-ginterp", "p.ao"], os.path.join(d, "ao")
         if route == "interp-as":
-            return self.base(lib) + ["-Wcheck", "-ginterp", "p.as"]
+            return self.base(lib) + chk + ["-ginterp", "p.as"], d
         if route == "interp-nogc":
-            return self.base(lib) + ["-Wcheck", "-Wno-gc", "-ginterp", "p.as"]
-        if route == "interp-plain":          # no -Wcheck: freed storage not poisoned, assertions off
-            return self.base(lib) + ["-ginterp", "p.as"]
+            return self.base(lib) + chk + ["-Wno-gc", "-ginterp", "p.as"], d
         raise ValueError(route)
 
-    def run(self, route, lib, d, sched=None, timeout=60, detail=False):
+    def run(self, route, p, sched=None, timeout=60, detail=False):
         env = dict(self.env)
         if sched:
             env["ALDOR_VERIF_GC"] = "%d:%d" % sched
         if detail:
             env["GC_DETAIL"] = "x"
-        return runb(self.route_cmd(route, lib, d), cwd=d, env=env, timeout=timeout)
+        cmd, cwd = self.route_cmd(route, p)
+        return runb(cmd, cwd=cwd, env=env, timeout=timeout)
 
 
 def how_to_replay(tools, p, route, sched):
     lib = p.get("lib", "aldor")
     env = "ALDORROOT=%s/aldor LC_ALL=C" % C.RB
-    steps = ["# ./check C09 --replay <this file>      (rebuilds compiler + libfoam.a from the current sources); by hand:",
-             "# write replay.src to p.as, then (aldor = compiler built from the current tree with -DALDOR_VERIF, "
-             "first -Y = directory of libfoam.a built from the current tree with -DFOAM_RTS -DALDOR_VERIF)",
-             "%s %s" % (env, " ".join("'%s'" % a if " " in a else a for a in tools.build_cmd(lib)))]
-    cmd = tools.route_cmd(route, lib, ".")
-    steps.append("%s %s %s   # baseline" % (env, "", " ".join(cmd)))
-    steps.append("%s ALDOR_VERIF_GC=%d:%d %s   # differs" % (env, sched[0], sched[1], " ".join(cmd)))
+    q = lambda cmd: " ".join("'%s'" % a if " " in a else a for a in cmd)
+    cmd, cwd = tools.route_cmd(route if route != "compile" else "exe", dict(p, dir="."))
+    steps = ["./check C09 --replay <this file>      # rebuilds compiler + libfoam.a from the current sources.  By hand:",
+             "# write replay.src to p.as; aldor = compiler built from the current tree with -DALDOR_VERIF; the first -Y is "
+             "the directory of libfoam.a built from the current tree with -DFOAM_RTS -DALDOR_VERIF",
+             "%s %s" % (env, q(tools.build_cmd(lib)))]
+    if route == "compile":
+        bc = tools.build_cmd(lib)
+        return steps[:2] + ["%s %s   # fails" % (env, q(bc)), "%s %s   # collector off: succeeds" % (env, q(bc[:1] + ["-Wno-gc"] + bc[1:]))]
+    if route == "interp-ao":
+        steps.append("mkdir ao && mv p.ao ao/ && cd ao")
+    steps.append("%s %s   # reference run" % (env, q(cmd)))
+    if sched and sched[0]:
+        steps.append("%s ALDOR_VERIF_GC=%d:%d %s   # differs" % (env, sched[0], sched[1], q(cmd)))
+    else:
+        steps.append("%s %s   # collector off: differs" % (env, q(tools.route_cmd("interp-nogc", dict(p, dir="."))[0])))
     return steps
 
 
@@ -144,6 +156,8 @@ def how_to_replay(tools, p, route, sched):
 def classify(r, base):
     """None when run r shows the same behaviour as the baseline run; else (kind, detail)."""
     blob = r["out"] + r["err"]
+    if not r["timeout"] and r["out"] == base["out"] and r["rc"] == base["rc"]:
+        return None
     if r["timeout"]:
         return ("hang", "no result within the time limit (%.0fs)" % r["wall"])
     kind = None
@@ -250,13 +264,27 @@ def repo_programs(rng, n):
 
 # ------------------------------------------------------------------ preparing one program
 
+def faulty(b):
+    return b["rc"] < 0 or any(t in b["out"] + b["err"] for t in FAULT_TEXT)
+
+
+def agrees(p, b):
+    """does the unforced run b give what the oracle says (repository tests: no oracle, must not fault)"""
+    if p["expect_out"] is None:
+        return not faulty(b)
+    return b["out"] == p["expect_out"].encode() and (b["rc"] == 0) == (p["expect_status"] == "ok")
+
+
 def prepare(tools, p, d, want_interp=True):
-    """Compile p, run the baselines.  Fills p['dir'], p['base'][route]; sets p['skip'] = reason when
-    the program cannot serve (does not build, not reproducible, disagrees with its oracle without any
-    forced collection, too slow)."""
-    os.makedirs(d, exist_ok=True)
+    """Compile p and run every route without forced collections.  Fills p['dir'], p['base'][route] for
+    the routes that can serve as reference (they agree with the oracle; repository tests: reproducible and
+    fault-free), p['natural'] = differences that only the collector's natural schedule can explain.
+    Sets p['skip'] = reason when no route can serve."""
+    os.makedirs(os.path.join(d, "ao"), exist_ok=True)
     p["dir"] = d
     p["base"] = {}
+    p["natural"] = []
+    p["dropped"] = {}
     lib = p.get("lib", "aldor")
     with open(os.path.join(d, "p.as"), "w") as f:
         f.write(p["src"])
@@ -265,48 +293,62 @@ def prepare(tools, p, d, want_interp=True):
         for fn in os.listdir(sd):
             if fn.endswith(".as") and fn != os.path.basename(p["srcpath"]):
                 shutil.copy(os.path.join(sd, fn), os.path.join(d, fn))
-    r = runb(tools.build_cmd(lib), cwd=d, env=tools.env, timeout=180)
-    if r["rc"] != 0 or not os.path.exists(os.path.join(d, "p.exe")) or not os.path.exists(os.path.join(d, "p.ao")):
-        p["skip"] = "does not build (rc %s): %s" % (r["rc"], (r["out"] + r["err"])[-300:].decode("utf-8", "replace"))
-        return p
-    routes = ["exe"] + (["interp-as", "interp-ao", "interp-nogc", "interp-plain"] if want_interp else [])
+    def built(r):
+        return r["rc"] == 0 and not r["timeout"] and os.path.exists(os.path.join(d, "p.exe")) and \
+            os.path.exists(os.path.join(d, "p.ao"))
+    bc = tools.build_cmd(lib)
+    r = runb(bc, cwd=d, env=tools.env, timeout=90)
+    if not built(r):
+        # The compiler is a collected program too: does it build with its collector off?
+        for fn in ("p.exe", "p.ao", "p.c"):
+            if os.path.exists(os.path.join(d, fn)):
+                os.unlink(os.path.join(d, fn))
+        r2 = runb(bc[:1] + ["-Wno-gc"] + bc[1:], cwd=d, env=tools.env, timeout=90)
+        if not built(r2):
+            p["skip"] = "does not build (rc %s): %s" % (r["rc"], (r["out"] + r["err"])[-300:].decode("utf-8", "replace"))
+            return p
+        kind = "hang" if r["timeout"] else "fault" if faulty(r) else "status"
+        p["natural"].append(("compile", "natural:" + kind,
+                             "the compiler fails on this program (rc %s, %s) and succeeds with its collector off (-Wno-gc)"
+                             % (r["rc"], (r["out"] + r["err"])[-300:].decode("utf-8", "replace").replace("\n", " "))))
+    shutil.move(os.path.join(d, "p.ao"), os.path.join(d, "ao", "p.ao"))
+    routes = ["exe"] + (["interp-nogc", "interp-as", "interp-ao"] if want_interp else [])
+    runs = {}
+    for chk in (["-Wcheck"], []):
+        p["chk"] = chk
+        for rt in routes:
+            if rt in runs:
+                continue
+            runs[rt] = tools.run(rt, p, timeout=60)
+        if not want_interp or agrees(p, runs["interp-nogc"]) or not chk:
+            break
+        # the collector-off run already fails under -Wcheck (an interpreter assertion, nothing to do with
+        # collection): use the interpreter without -Wcheck for this program (freed storage not poisoned)
+        for rt in routes[1:]:
+            runs.pop(rt, None)
     for rt in routes:
-        b = tools.run(rt, lib, d, timeout=60)
+        b = runs[rt]
         if b["timeout"] or b["wall"] > 10:
-            p["skip"] = "baseline %s too slow (%.1fs)" % (rt, b["wall"])
-            return p
+            p["dropped"][rt] = "unforced run too slow (%.1fs)" % b["wall"]
+            continue
+        if rt in ("interp-as", "interp-ao") and "interp-nogc" in runs:
+            c = classify(b, runs["interp-nogc"])
+            if c and agrees(p, runs["interp-nogc"]):
+                p["natural"].append((rt, "natural:" + c[0],
+                                     "the unforced run differs from the run with the collector off (-Wno-gc): " + c[1]))
+                continue
+        if not agrees(p, b):
+            p["dropped"][rt] = "unforced run disagrees with the oracle / faults (matter of C01/C03, not of collection)"
+            continue
+        if p["expect_out"] is None:
+            b2 = tools.run(rt, p, timeout=60)
+            if b2["out"] != b["out"] or b2["rc"] != b["rc"]:
+                p["dropped"][rt] = "not reproducible"
+                continue
         p["base"][rt] = b
-    if p["expect_out"] is None:
-        for rt in routes[:2]:
-            b2 = tools.run(rt, lib, d, timeout=60)
-            if b2["out"] != p["base"][rt]["out"] or b2["rc"] != p["base"][rt]["rc"]:
-                p["skip"] = "not reproducible on route %s" % rt
-                return p
-        if any(t in p["base"]["exe"]["out"] + p["base"]["exe"]["err"] for t in FAULT_TEXT) or p["base"]["exe"]["rc"] < 0:
-            p["skip"] = "unforced run already ends in a fault (not a collection matter: see C01/C03)"
-            return p
+    if not any(rt in p["base"] for rt in ("exe", "interp-as", "interp-ao")):
+        p["skip"] = "no usable route: %s" % p["dropped"]
     return p
-
-
-def baseline_verdicts(p):
-    """Compare the unforced runs with the oracle and with the collector-off run.
-    -> list of (route, kind, detail) for GENUINE natural-collection differences; sets p['skip'] when
-    the program disagrees with its oracle for reasons that have nothing to do with collection."""
-    bad = []
-    exp = p["expect_out"]
-    base = p["base"]
-    if "interp-nogc" in base:
-        nogc = base["interp-nogc"]
-        for rt in ("interp-as", "interp-ao", "interp-plain"):
-            c = classify(base[rt], nogc)
-            if c:
-                bad.append((rt, "natural:" + c[0], "unforced run differs from the run with the collector off (-Wno-gc): " + c[1]))
-    if exp is not None:
-        for rt, b in base.items():
-            ok = b["out"] == exp.encode() and (b["rc"] == 0) == (p["expect_status"] == "ok")
-            if not ok and not any(x[0] == rt for x in bad):
-                p["skip"] = "route %s disagrees with the oracle without any forced collection (matter of C01/C03)" % rt
-    return bad
 
 
 # ------------------------------------------------------------------ schedules
@@ -331,7 +373,7 @@ def calibrate(tools, p):
         if rt not in p["base"]:
             continue
         t0 = p["base"][rt]["wall"]
-        r = tools.run(rt, lib, p["dir"], sched=(k, k // 2), timeout=300, detail=(rt == "exe"))
+        r = tools.run(rt, p, sched=(k, k // 2), timeout=300, detail=(rt == "exe"))
         c = classify(r, p["base"][rt])
         if c:
             fails.append((rt, (k, k // 2), c))
@@ -374,51 +416,55 @@ def hook_sanity(rep):
 
 
 def make_jobs(progs, tier, rng):
-    """-> list of dict(p, route, k, j, cost, prio).  prio 0 = must run, larger = later."""
+    """-> list of dict(p, route, k, j, cost, prio, too_slow).  prio 0 = must run; larger = admitted while the
+    core-second budget lasts.  Small k is expensive (one collection per k allocations: ~0.5 ms each in a compiled
+    program, ~10 ms in the interpreter, whose heap holds the loaded libraries), so the interpreter gets the full
+    small-k enumeration only for its cheapest hand-written programs."""
     jobs = []
     quick = tier == "quick"
     ks = K_QUICK if quick else K_THOROUGH
     cap_exe = 45 if quick else 400
     cap_int = 170 if quick else 900
     usable = [p for p in progs if not p.get("skip")]
-    by_int = sorted([p for p in usable if "interp-ao" in p.get("est", {})], key=lambda p: est_cost(p, "interp-ao", 1))
-    small_int = set(id(p) for p in by_int[:(2 if quick else 8)])
+
+    def cheapest(rt, fam, n):
+        c = [p for p in usable if rt in p.get("est", {}) and p["family"] in fam]
+        return [id(p) for p in sorted(c, key=lambda p: est_cost(p, rt, 1))[:n]]
+    int_full = cheapest("interp-ao", ("hand",), 1 if quick else 6)
+    int_some = cheapest("interp-ao", ("hand", "mini"), 3 if quick else 16)
+    as_some = cheapest("interp-as", ("hand", "mini", "repo"), 3 if quick else 1000)
+
+    def add(p, rt, k, js, prio, cap):
+        c = est_cost(p, rt, k)
+        for j in js:
+            jobs.append({"p": p, "route": rt, "k": k, "j": j, "cost": c, "prio": prio, "too_slow": c > cap})
     for p in usable:
-        for rt in ("exe", "interp-ao", "interp-as"):
-            if rt not in p["est"]:
-                continue
-            for k in ks:
-                if rt == "exe":
-                    js = js_for(rng, k, 5 if quick else 8, 2 if quick else 6)
-                    cap = cap_exe
-                    prio = 0 if k <= 5 else 1
-                elif rt == "interp-ao":
-                    if id(p) in small_int:
-                        js = js_for(rng, k, 5 if quick else 6, 1 if quick else 4)
-                        prio = 0
-                    elif k < (17 if quick else 5):
-                        continue
-                    else:
-                        js = js_for(rng, k, 0, 1 if quick else 3)
-                        prio = 1
-                    cap = cap_int
+        hand = p["family"] in ("hand", "corpus")
+        for k in ks:
+            if "exe" in p["est"]:
+                if quick:
+                    full = 5 if hand else 1
+                    add(p, "exe", k, js_for(rng, k, full, 2 if hand else 1), 0 if (k <= 5 and hand) or k == 1 else 1, cap_exe)
                 else:
-                    if k < (100 if quick else 50):
-                        continue
-                    js = js_for(rng, k, 0, 1 if quick else 2)
-                    cap = cap_int
-                    prio = 2
-                c = est_cost(p, rt, k)
-                for j in js:
-                    jobs.append({"p": p, "route": rt, "k": k, "j": j, "cost": c, "prio": prio,
-                                 "too_slow": c > cap})
+                    add(p, "exe", k, js_for(rng, k, 8 if hand else 3, 6 if hand else 3), 0 if k <= 8 else 1, cap_exe)
+            if "interp-ao" in p["est"]:
+                if id(p) in int_full:
+                    add(p, "interp-ao", k, js_for(rng, k, 5 if quick else 6, 1 if quick else 4), 0 if k <= 5 else 1, cap_int)
+                elif id(p) in int_some and k > 1:
+                    add(p, "interp-ao", k, js_for(rng, k, 0, 1 if quick else 2), 1, cap_int)
+                elif k >= (17 if quick else 8):
+                    add(p, "interp-ao", k, js_for(rng, k, 0, 1 if quick else 2), 1, cap_int)
+            if "interp-as" in p["est"] and k >= (100 if quick else 50) and id(p) in as_some:
+                add(p, "interp-as", k, js_for(rng, k, 0, 1 if quick else 2), 1, cap_int)
+        if "interp-as" in p["est"] and quick:       # the compile phase under collection as well (cheap at k = 1000)
+            add(p, "interp-as", 1000, js_for(rng, 1000, 0, 1), 1, cap_int)
     return jobs
 
 
 def run(rep, tier):
     t_start = time.time()
     quick = tier == "quick"
-    window = (115 if quick else 2300)          # seconds of wall time for the schedule runs
+    window = (100 if quick else 2300)          # seconds of wall time for the schedule runs
     C.proof_stage(rep, ID, ["Props/Properties_C09.vo"], "Props/Properties_C09.v", None, defer=True)
     tools = Tools()
     ok_hook, hook_res = hook_sanity(rep)
@@ -447,11 +493,8 @@ def run(rep, tier):
         i, p = ip
         prepare(tools, p, "%s/p%03d" % (base, i))
         if p.get("skip"):
-            return p, [], []
-        nat = baseline_verdicts(p)
-        if p.get("skip"):
-            return p, nat, []
-        return p, nat, calibrate(tools, p)
+            return p, p.get("natural", []), []
+        return p, p["natural"], calibrate(tools, p)
     with concurrent.futures.ThreadPoolExecutor(C.NCPU) as ex:
         for p, nat, cal in ex.map(prep, enumerate(progs)):
             for rt, kind, detail in nat:
@@ -493,8 +536,7 @@ def run(rep, tier):
         if time.time() > deadline and j["prio"] > 0:
             return j, None
         p = j["p"]
-        r = tools.run(j["route"], p.get("lib", "aldor"), p["dir"], sched=(j["k"], j["j"]),
-                      timeout=max(90, 6 * j["cost"] + 30))
+        r = tools.run(j["route"], p, sched=(j["k"], j["j"]), timeout=max(90, 6 * j["cost"] + 30))
         return j, r
     suspects = []
     with concurrent.futures.ThreadPoolExecutor(C.NCPU) as ex:
@@ -511,8 +553,7 @@ def run(rep, tier):
             elif c:
                 failures.append({"p": j["p"], "route": j["route"], "sched": (j["k"], j["j"]), "kind": c[0], "detail": c[1]})
     for j in suspects[:4]:       # a time-out under load is not yet a hang: once more, alone, three times the limit
-        r = tools.run(j["route"], j["p"].get("lib", "aldor"), j["p"]["dir"], sched=(j["k"], j["j"]),
-                      timeout=3 * max(90, 6 * j["cost"] + 30))
+        r = tools.run(j["route"], j["p"], sched=(j["k"], j["j"]), timeout=3 * max(90, 6 * j["cost"] + 30))
         c = classify(r, j["p"]["base"][j["route"]])
         if c:
             failures.append({"p": j["p"], "route": j["route"], "sched": (j["k"], j["j"]), "kind": c[0], "detail": c[1]})
@@ -537,6 +578,8 @@ def run(rep, tier):
                 input_distribution={
                     "programs_usable": len(usable), "by_family": dict(fam), "shapes(programs containing)": dict(shapes),
                     "programs_skipped": len(skipped), "skipped_reasons": skipped[:12],
+                    "routes_dropped(no usable reference run)": sum(len(p.get("dropped", {})) for p in usable),
+                    "interpreter_programs_run_without_-Wcheck": [p["name"] for p in usable if not p.get("chk")][:20],
                     "allocations_per_compiled_program(est)": {"min": min(nalloc) if nalloc else None,
                                                               "max": max(nalloc) if nalloc else None},
                     "forced_runs_by_route": dict(done),
@@ -600,7 +643,7 @@ def fails_under(tools, p, route, scheds, limit_s):
     def one(s):
         if time.time() - t0 > limit_s:
             return s, None
-        r = tools.run(route, lib, p["dir"], sched=s, timeout=max(60, limit_s))
+        r = tools.run(route, p, sched=s, timeout=max(60, limit_s))
         return s, classify(r, p["base"][route])
     with concurrent.futures.ThreadPoolExecutor(C.NCPU) as ex:
         for s, c in ex.map(one, scheds):
@@ -702,15 +745,21 @@ def report_failures(rep, tools, failures, base, tier):
         key = (f["p"]["name"], f["route"])
         if key not in best or (f["sched"] or (0, 0)) < (best[key]["sched"] or (0, 0)):
             best[key] = f
-        best[key].setdefault("n_sched", 0)
     cnt = collections.Counter((f["p"]["name"], f["route"]) for f in failures)
     groups = sorted(best.values(), key=lambda f: (f["p"]["family"] != "corpus", f["p"]["family"] != "hand",
                                                   len(f["p"]["src"])))
     shrunk = 0
+    emitted = collections.Counter()      # per (route, natural?) class: at most 4 new violations are written out
+    suppressed = collections.Counter()
     for f in groups:
         p, route, sched = f["p"], f["route"], f["sched"]
+        cls = (route, sched is None)
+        if emitted[cls] >= 4:
+            suppressed[cls] += 1
+            continue
         note = ""
-        if sched is not None and p["family"] in ("hand", "mini") and shrunk < (2 if quick else 6):
+        if sched is not None and p["family"] in ("hand", "mini") and shrunk < (2 if quick else 6) \
+                and not rep.finding_key_known(key_of(p, route, sched)):
             shrunk += 1
             budget = 45 if quick else 600
             try:
@@ -719,14 +768,18 @@ def report_failures(rep, tools, failures, base, tier):
                 else:
                     q, s = shrink_mini(tools, p, route, sched, base, budget)
                 s = smallest_k(tools, q, route, s, budget)
-                r = tools.run(route, q.get("lib", "aldor"), q["dir"], sched=s, timeout=300)
+                r = tools.run(route, q, sched=s, timeout=300)
                 c = classify(r, q["base"][route])
                 if c:
                     note = " (shrunk from %s under %d:%d)" % (p["name"], sched[0], sched[1])
                     p, sched, f = q, s, dict(f, kind=c[0], detail=c[1])
             except Exception as e:      # the shrinker must never hide the failure itself
                 note = " (shrinking failed: %s)" % str(e)[:100]
-        emit(rep, tools, p, route, sched, f["kind"], f["detail"], note, cnt[(f["p"]["name"], f["route"])])
+        if emit(rep, tools, p, route, sched, f["kind"], f["detail"], note, cnt[(f["p"]["name"], f["route"])]):
+            emitted[cls] += 1
+    for cls, n in suppressed.items():
+        rep.notes.append("%d further failing program(s) on route %s (%s) not written out" %
+                         (n, cls[0], "natural schedule" if cls[1] else "forced schedules"))
 
 
 def key_of(p, route, sched):
@@ -750,7 +803,7 @@ def emit(rep, tools, p, route, sched, kind, detail, note, n_sched):
            "path": p.get("path") if isinstance(p.get("path"), list) else None,
            "baseline_out": p["base"][route]["out"].decode("utf-8", "replace")[:4000] if route in p.get("base", {}) else None,
            "detail": detail}
-    rep.violation(what, obj, key=key_of(p, route, sched))
+    return rep.violation(what, obj, key=key_of(p, route, sched))
 
 
 def replay(path):
@@ -770,15 +823,18 @@ def replay(path):
     route, k, j = rp["route"], int(rp["k"]), int(rp["j"])
     bad = 0
     if k == 0:
-        for rt, kind, detail in baseline_verdicts(p):
+        for rt, kind, detail in p["natural"]:
             print("%s: %s %s" % (rt, kind, detail))
             bad = 1
         return bad
+    if route not in p["base"]:
+        print("replay: route %s has no usable reference run: %s" % (route, p["dropped"]))
+        return 2
     b = p["base"][route]
     print("--- baseline (%s, rc %s)\n%s" % (route, b["rc"], b["out"].decode("utf-8", "replace")[:3000]))
     if p["expect_out"] is not None and b["out"] != p["expect_out"].encode():
         print("--- NOTE: baseline differs from the oracle:\n%s" % p["expect_out"][:3000])
-    r = tools.run(route, p["lib"], p["dir"], sched=(k, j), timeout=1800)
+    r = tools.run(route, p, sched=(k, j), timeout=1800)
     c = classify(r, b)
     print("--- ALDOR_VERIF_GC=%d:%d (rc %s)\n%s" % (k, j, r["rc"], r["out"].decode("utf-8", "replace")[:3000]))
     if c:
